@@ -269,5 +269,37 @@ def run(ctx):
 
 
 def replay(ctx, obj):
-    print('histories are regenerated from the seed: VERIF_SEED=%s ./check C04' % obj.get('seed'))
-    return 0
+    """re-run one history along the recorded path and front end, next to a fresh install"""
+    evorig.setup()
+    r = obj.get('replay', obj)
+    if 'evolutions' not in r:
+        print('nothing to replay in this file: %r' % list(r))
+        return 0
+    spec0, evos = r['specs'][0], r['evolutions']
+    sig = dbrig.sig_from_models(dbrig.build_models(spec0))
+    specs = [spec0]
+    for e in evos:
+        sig = sigs.real_simulate(sig, 'vapp', [sigs.real_mutation(m) for m in e])[1]
+        sp = dbrig.spec_from_sig(sig)
+        sp['apps'] = [a for a in sp['apps'] if a['id'] == 'vapp']
+        specs.append(sp)
+    n, how, i, path = len(evos), r.get('front_end', 'evolver'), r.get('start', 0), r.get('path', 'direct')
+    evorig.fresh_databases()
+    evorig.clear_evolutions()
+    install(specs, evos, n)
+    print('fresh install:', drive(how))
+    fresh = final_state()
+    evorig.fresh_databases()
+    evorig.clear_evolutions()
+    install(specs, evos, i)
+    drive('evolver')
+    dbrig.insert_rows(evorig.install_models(specs[i]), random.Random(r.get('seed', 0) + i))
+    for v in (range(i + 1, n + 1) if path == 'stepwise' else [n]):
+        install(specs, evos, v)
+        print('-> V%d (%s):' % (v, how), drive(how))
+    st = final_state()
+    req, diff_empty, writes = second_run()
+    sd = dbrig.schema_diff(st['schema'], fresh['schema'])
+    print('labels %r (fresh %r); stored signature matches models: %s; second run required=%s writes=%d; schema differs from fresh: %s'
+          % (st['labels'], fresh['labels'], st['sig_matches_models'], req, len(writes), sd[:2]))
+    return 1 if (st['labels'] != fresh['labels'] or not st['sig_matches_models'] or req or writes or sd) else 0
